@@ -30,7 +30,7 @@ func lbLines(which int, lb *lookBack) []string {
 	}
 	out := []string{fmt.Sprintf("LB %d %s", which, lb.chamberTotal().String())}
 	for i, s := range lb.specs {
-		mk, bk := s.key.id, s.key.id
+		mk, bk := s.key.id, s.bls().id
 		if s.badMain {
 			mk = 0
 		}
